@@ -175,6 +175,21 @@ PROPS = {
              "checks": {"quick": 4000, "thorough": 200000}, "shards": {"quick": 8, "thorough": 12}},
         ],
     },
+    "C12": {
+        "level": "fault_enumeration", "sim": True,
+        "technique": "fault enumeration inside property-based testing: the fault-free request/hook trace of a sync is recorded, then every position x error kind is injected singly (exhaustively for a fixed scenario family, sampled for rapid-generated scenarios, plus random two-fault sequences); oracle = work-queue calls of the controller's own processNextWorkItem, per-child request isolation against the fault-free trace, and convergence to the fault-free final store",
+        "level_text": "races are made real (the object is deleted / modified / created by an outside writer just before the request) so that 'benign' is judged on true API-server answers; server errors leave the store untouched or commit and lose the response; hook failures come from the in-memory webhook",
+        "rule": ("case = scenario (fixed family: 4 update methods x 1-2 child kinds, composite and decorator, enumerated exhaustively; or rapid-generated) x one fault: API request position x {real race, 410, 422, 500, timeout before commit, timeout after commit} or hook call x {5xx, 429 Retry-After, connection refused, undecodable body}; "
+                 "the work sync contains adoption, release, delete, update, create and the status write; non-trivial = a fault was injected (every case); distinct = distinct choice sequences"),
+        "jobs": [
+            {"name": "c12-fixed-composite", "pkg": COMPOSITE, "tests": ["TestVerifC12FixedExhaustive"], "shards": {"quick": 8, "thorough": 8}, "timeout": {"quick": 900, "thorough": 3000}},
+            {"name": "c12-fixed-decorator", "pkg": DECORATOR, "tests": ["TestVerifC12FixedExhaustive"], "shards": {"quick": 4, "thorough": 4}, "timeout": {"quick": 900, "thorough": 3000}},
+            {"name": "c12-rand-composite", "pkg": COMPOSITE, "tests": ["TestVerifC12Random"],
+             "checks": {"quick": 800, "thorough": 60000}, "shards": {"quick": 2, "thorough": 8}},
+            {"name": "c12-rand-decorator", "pkg": DECORATOR, "tests": ["TestVerifC12Random"],
+             "checks": {"quick": 400, "thorough": 30000}, "shards": {"quick": 1, "thorough": 4}},
+        ],
+    },
     "C13": {
         "level": "exploration", "sim": True,
         "technique": "property-based testing: grammar-generated malformed hook responses + native go fuzzing; oracle = no panic and no child write on a rejected response",
